@@ -827,11 +827,19 @@ def run_trial(exe, t, wd, tsan=False, timeout=25):
     full = {k: v for k, v in os.environ.items() if k not in ("OVNI_TMPDIR", "OVNI_TRACEDIR", "OVNI_VERIF_EVBUF")}
     full.update(env)
     import subprocess
-    try:
-        p = subprocess.run([exe, sp], stdout=subprocess.PIPE, stderr=subprocess.PIPE, timeout=timeout, env=full, cwd=d)
-        rc, out, err = p.returncode, p.stdout.decode(errors="replace"), p.stderr.decode(errors="replace")
-    except subprocess.TimeoutExpired:
-        rc, out, err = "timeout", "", ""
+    rc, out, err = "timeout", "", ""
+    for attempt, tmo in enumerate((timeout, timeout * 5)):
+        # on a loaded machine the spinning barriers / the lockstep hand-over can starve: a trial that does not finish is
+        # run once more from scratch with five times the budget before it is reported
+        if attempt:
+            shutil.rmtree(tracedir, ignore_errors=True)
+            shutil.rmtree(tmpdir, ignore_errors=True)
+        try:
+            p = subprocess.run([exe, sp], stdout=subprocess.PIPE, stderr=subprocess.PIPE, timeout=tmo, env=full, cwd=d)
+            rc, out, err = p.returncode, p.stdout.decode(errors="replace"), p.stderr.decode(errors="replace")
+            break
+        except subprocess.TimeoutExpired:
+            rc, out, err = "timeout", "", ""
     res = {"rc": rc, "threads": {}, "main": None, "dir": d, "stderr_tail": err[-1500:], "tsan": []}
     for line in out.split("\n"):
         m = re.match(r"t (\d+) done=(\d+) died=(-?\d+) retries=(\d+) why=(.*)$", line)
